@@ -113,54 +113,6 @@ fn pair_cases(g: &Grammar, d: &CDoc, out: &mut Vec<Case>) {
     }
 }
 
-/// IF_DATA payloads (interpreted through an in-file A2ML definition and uninterpreted), all on one line or one
-/// token per line, with one gap between two payload tokens changed
-fn ifdata_layout_cases(out: &mut Vec<Case>) {
-    for (pn, pl) in c01::IFDATA_PAYLOADS {
-        let ptoks: Vec<&str> = pl.split_whitespace().collect();
-        if ptoks.is_empty() {
-            continue;
-        }
-        let mut bt = vec!["/begin", "IF_DATA"];
-        bt.extend(ptoks.iter().copied());
-        bt.extend(["/end", "IF_DATA"]);
-        for with_a2ml in [false, true] {
-            let head = vcore::ifdoc::doc_text(with_a2ml.then(|| c01::IFDATA_A2ML.trim()), &[]);
-            let head = head.strip_suffix("  /end MODULE\n/end PROJECT\n").unwrap().to_string();
-            for (bn, base) in [("one-line", " "), ("line-per-token", "\n      ")] {
-                let mut variants: Vec<(String, Option<(usize, &str)>)> = vec![(format!("ifdata-{bn}"), None)];
-                for gap in 2..bt.len() - 1 {
-                    if bt[gap - 1] == "/begin" || bt[gap - 1] == "/end" {
-                        continue;
-                    }
-                    for (n, w) in WS {
-                        if w.trim_matches(' ') == base.trim_matches(' ') {
-                            continue;
-                        }
-                        variants.push((format!("ifdata-ws:{n}@{bn}"), Some((gap, w))));
-                    }
-                }
-                for (class, var) in variants {
-                    let mut t = head.clone();
-                    t.push_str("    ");
-                    for (i, tok) in bt.iter().enumerate() {
-                        if i > 0 {
-                            let default = if bt[i - 1] == "/begin" || bt[i - 1] == "/end" { " " } else { base };
-                            t.push_str(match var {
-                                Some((g, w)) if g == i => w,
-                                _ => default,
-                            });
-                        }
-                        t.push_str(tok);
-                    }
-                    t.push_str("\n  /end MODULE\n/end PROJECT\n");
-                    out.push(Case { label: format!("ifdata({pn},a2ml={with_a2ml}) {class} {var:?}"), class, text: t, spec: None, parts: vec![] });
-                }
-            }
-        }
-    }
-}
-
 pub enum LV {
     OutOfScope(&'static str),
     Ok,
@@ -490,7 +442,7 @@ pub fn run(tier: &str) -> Run {
         cases.push(Case { label: format!("{} + crlf", d.label), class: "crlf-document".into(), text: d.doc.text().replace('\n', "\r\n"), spec: None, parts: vec![] });
         layout_cases(&g, d, &mut cases);
     }
-    ifdata_layout_cases(&mut cases);
+    c01::ifdata_gap_cases(true, false, &mut cases);
     let pair_tags: &[&str] = if thorough { &["MEASUREMENT", "ANNOTATION_TEXT", "A2ML", "IF_DATA", "FNC_VALUES", "VAR_CRITERION", "HEADER", "COMPU_VTAB", "MEMORY_SEGMENT", "FUNCTION_LIST", "FORMULA", "SYMBOL_LINK"] } else { &["ANNOTATION_TEXT", "FORMULA"] };
     for t in pair_tags {
         if let Some(d) = carriers.iter().find(|c| c.label == format!("carrier({t})")) {
